@@ -114,7 +114,11 @@ def _gen_time(rng, lo, hi):
 
 def _gen_melody_notes(rng, n, end_note_prob=0.15):
     """[pitch, start, end, instrument, is_drum, program] in ticks; many coinciding times."""
-    pool = rng.sample(range(30, 90), rng.randint(1, min(5, max(1, n))))
+    if rng.random() < 0.15:
+        # the ends of the MIDI range (pitch 0 is falsy in Python): as the only / the top voice
+        pool = list(rng.choice([[0], [0, 1], [0, 1, 2], [1], [127], [126, 127], [0, 127]]))
+    else:
+        pool = rng.sample(range(30, 90), rng.randint(1, min(5, max(1, n))))
     notes = []
     t = 0
     for _ in range(n):
@@ -262,6 +266,36 @@ def _gen_near_tie_first_frame(rng):
     return {'op': 'chords_e2e', 'input': g}
 
 
+OUT_OF_KEY_SWEEP = [0.01, 0.1, 0.3, 0.5]
+
+
+def _gen_out_of_key_sweep(rng):
+    """One sparse / chromatic note set (single tones, semitone dyads, clusters, tritones, empty frames: frames where the
+    out-of-key penalty decides) run with EVERY chord_pitch_out_of_key_prob of the sweep, all other parameters equal, in a
+    random order: every call must be optimal for its own parameters whatever was called before in this process."""
+    g = _gen_grid(rng)
+    spc = g['spc']
+    T = rng.randint(2, 6)
+    base = rng.randrange(12)
+    notes = []
+    for f in range(T):
+        shape = rng.choice([[0], [0], [0, 1], [0, 1, 2], [0, 6], [0, 4], [0, 3, 6, 9], [0, 1, 6, 7], []])
+        r = (base + rng.choice([0, 0, 1, 2, 5, 6, 7])) % 12
+        for iv in shape:
+            s0 = f * spc if rng.random() < 0.8 else f * spc + spc // 2
+            notes.append([48 + (r + iv) % 12 + 12 * rng.randrange(2), s0, (f + 1) * spc])
+    notes.append([48 + base, (T - 1) * spc, T * spc])
+    g.update({'mode': 'fixed', 'total': T * spc, 'notes': notes, 'k': rng.randint(1, 11), 'addkeys': rng.random() < 0.5})
+    order = list(OUT_OF_KEY_SWEEP)
+    rng.shuffle(order)
+    out = []
+    for oop in order:
+        c = dict(g)
+        c['params'] = {'chord_pitch_out_of_key_prob': oop}
+        out.append({'op': 'chords_e2e', 'input': c})
+    return out
+
+
 CHORD_PARAMS = [None,
                 {'key_change_prob': 0.01, 'chord_change_prob': 0.3, 'chord_pitch_out_of_key_prob': 0.05},
                 {'key_change_prob': 0.0005, 'chord_change_prob': 0.7, 'chord_pitch_out_of_key_prob': 0.02},
@@ -305,6 +339,20 @@ def corpus():
     out.append({'op': 'chords_e2e', 'input': {   # C E G + half-frame Bb | F | G | C  (seeded change C19-1): C F G C, not C7
         'mode': 'fixed', 'num': 4, 'den': 4, 'spq': 4, 'qpm': 120, 'cpb': 2, 'spc': S, 'steps_per_chord': 8, 'total': 4 * S,
         'notes': [[p, a * S // 2, b * S // 2] for p, a, b in demo], 'k': 5, 'addkeys': True, 'params': {}}})
+    # MIDI pitch 0 as the only / the top voice (seeded change C19-4: `if note_pitch:` drops it), and pitch 127
+    out.append({'op': 'melody_e2e', 'input': {'notes': [[0, 0, 64 * GRID, 0, 0, 0]], 'total': 64 * GRID, 'k': 3, 'params': {}}})
+    out.append({'op': 'melody_e2e', 'input': {'notes': [[0, 0, 64 * GRID, 0, 0, 0], [1, 64 * GRID, 128 * GRID, 0, 0, 0],
+                                                        [0, 128 * GRID, 160 * GRID, 0, 0, 0], [127, 160 * GRID, 192 * GRID, 1, 0, 0]],
+                                               'total': 192 * GRID, 'k': 2, 'params': {}}})
+    out.append({'op': 'melody_write', 'input': {'notes': [[0, 0, 64 * GRID, 0, 0, 0], [0, 64 * GRID, 128 * GRID, 0, 0, 0]],
+                                                 'total': 128 * GRID, 'events': [[1, 0], [1, 0]]}})
+    # one note set under two chord_pitch_out_of_key_prob values with equal change probabilities (seeded change C19-3)
+    S2 = 2 ** 40
+    chrom = {'mode': 'fixed', 'num': 4, 'den': 4, 'spq': 4, 'qpm': 120, 'cpb': 2, 'spc': S2, 'steps_per_chord': 8, 'total': 3 * S2,
+             'notes': [[60, 0, S2], [61, 0, S2], [66, S2, 2 * S2], [60, 2 * S2, 3 * S2]], 'k': 4, 'addkeys': True}
+    for oop in (0.5, 0.01):
+        c = dict(chrom); c['params'] = {'chord_pitch_out_of_key_prob': oop}
+        out.append({'op': 'chords_e2e', 'input': c})
     out.append({'op': 'melody_vit', 'input': {'pitches': [60], 'trans': [[0, 0, None], [0, 0, 0], [0, 0, 0]],
                                                'frames': [[None, None, None], [None, None, None]]}})
     return out
@@ -378,6 +426,8 @@ def cases(rng, tier, n=None):
         out.append({'op': 'chords_e2e', 'input': inp})
     for _ in range(300 if thorough else 30):
         out.append(_gen_near_tie_first_frame(rng))
+    for _ in range(40 if thorough else 5):
+        out += _gen_out_of_key_sweep(rng)
     for i in range(4000 if thorough else 150):
         notes, total = _gen_melody_notes(rng, rng.randint(1, 100 if thorough and i % 10 == 0 else 12))
         out.append({'op': 'melody_e2e', 'input': {'notes': notes, 'total': total, 'k': rng.randint(1, 11),
@@ -468,7 +518,7 @@ class _memo_transition(object):
         def memo(key_chord_distribution, key_change_prob, chord_change_prob):
             k = (key_chord_distribution.tobytes(), key_change_prob, chord_change_prob)
             if k not in _TD_CACHE:
-                if len(_TD_CACHE) > 6:
+                if len(_TD_CACHE) > 12:
                     _TD_CACHE.clear()
                 _TD_CACHE[k] = orig(key_chord_distribution, key_change_prob=key_change_prob,
                                     chord_change_prob=chord_change_prob)
@@ -736,7 +786,9 @@ def _impl_melody_e2e(a):
     import numpy as np
     from note_seq import melody_inference as mi
     out = []
-    for shift in (0, a['k']):
+    ps = [x[0] for x in a['notes']] or [60]
+    k = a['k'] if max(ps) + a['k'] <= 127 else (-a['k'] if min(ps) - a['k'] >= 0 else 0)
+    for shift in (0, k):
         ns = _melody_proto(a['notes'], a['total'], shift=shift)
         n0 = len(ns.notes)
         orig, wrapper, store = _capture(mi, '_melody_viterbi')
